@@ -128,12 +128,13 @@ static M one_triangle(const MatC& A, int uplo)
 struct Outcome { CompInfo info; Vec x; bool threw = false; };
 
 template <class M>
-static Outcome factor_solve(const MatC& A, int uplo, R sigma, int pres, const Vec& b)
+static Outcome factor_solve(const MatC& A, int uplo, R sigma, int pres, const Vec& b, Spectra::BKLDLT<T>* reuse = nullptr)
 {
     Outcome o;
     const int n = (int) A.rows();
     M P = one_triangle<M>(A, uplo);
-    Spectra::BKLDLT<T> fac;
+    Spectra::BKLDLT<T> local;
+    Spectra::BKLDLT<T>& fac = reuse ? *reuse : local;   // a reused object must give what a fresh one gives
     if (pres == 0) fac.compute(P, uplo, sigma);
     else if (pres == 1)
     {
@@ -194,11 +195,13 @@ static void nonsingular_case(vf::Ctx& ctx)
     const LD fn = fnorm(F), bn = fnorm(bl);
     Outcome first;
     bool have_first = false;
+    Spectra::BKLDLT<T> shared;
     for (int uplo : {Eigen::Lower, Eigen::Upper})
         for (int order = 0; order < 2; order++)
         {
             const int pres = (int) r.range(0, 3);
-            Outcome o = order == 0 ? factor_solve<MatC>(A, uplo, sigma, pres, b) : factor_solve<MatR>(A, uplo, sigma, pres, b);
+            // one factorization object serves all four presentations of this matrix (as the dense shift wrappers do on every set_shift)
+            Outcome o = order == 0 ? factor_solve<MatC>(A, uplo, sigma, pres, b, &shared) : factor_solve<MatR>(A, uplo, sigma, pres, b, &shared);
             const std::string cfg = std::string(uplo == Eigen::Lower ? "Lower" : "Upper") + "/" + (order ? "RowMajor" : "ColMajor") + "/" + PRES[pres];
             ctx.count("factorizations");
             ctx.count(std::string("presentation/") + PRES[pres]);
